@@ -221,6 +221,13 @@ func classify(srv *ogServer, ps *plannedSet, q *query, kind string, got, want *r
 	if got.err == "" && len(got.series) == 0 && dupSignatureOverRange(ps, q, applicable) {
 		return "binop-duplicate-check-per-series"
 	}
+	if dupSignature(ps, q, applicable, true) {
+		return "setop-one-series-per-signature"
+	}
+	// findings of the wider subset that have no defect model: assigned by a syntactic trigger
+	if cls := syntacticTrigger(q); cls != "" {
+		return cls
+	}
 	return "unexplained:" + kind
 }
 
@@ -231,11 +238,22 @@ func classify(srv *ogServer, ps *plannedSet, q *query, kind string, got, want *r
 // evaluated on the reference engine over the query's range - as written and under the defect
 // models of the matcher findings, which let extra series through.
 func dupSignatureOverRange(ps *plannedSet, q *query, models []rewriter) bool {
+	return dupSignature(ps, q, models, false)
+}
+
+// dupSignature: setOps = false looks at arithmetic / comparison operations (one-to-one), setOps =
+// true at and / or / unless (finding setop-one-series-per-signature).
+func dupSignature(ps *plannedSet, q *query, models []rewriter, setOps bool) bool {
 	found := false
 	check := func(e expr) {
 		e.walk(func(x expr) {
-			b, ok := x.(*binExpr)
-			if !ok || found || isScalar(b.l) || isScalar(b.r) || b.group != "" {
+			var b *binExpr
+			if so, ok := x.(*setExpr); ok && setOps {
+				b = &binExpr{match: so.match, labels: so.labels, l: so.l, r: so.r}
+			} else if bb, ok := x.(*binExpr); ok && !setOps {
+				b = bb
+			}
+			if b == nil || found || isScalar(b.l) || isScalar(b.r) || b.group != "" {
 				return
 			}
 			for _, side := range []expr{b.l, b.r} {
@@ -655,4 +673,84 @@ func hasTopkTie(ps *plannedSet, q *query) bool {
 		}
 	})
 	return tie
+}
+
+// syntacticTrigger: the finding classes that are assigned by the shape of the expression alone
+// (see known_findings.jsonl for the causes and witnesses). Order: the most specific first.
+func syntacticTrigger(q *query) string {
+	hasSubq, atInRange, topkInner, negOffFilter := false, false, false, false
+	var visit func(e expr, root bool, inSubq bool)
+	visit = func(e expr, root bool, inSubq bool) {
+		switch n := e.(type) {
+		case *selector:
+			if n.at != nil {
+				atInRange = true
+			}
+		case *rangeFn:
+			visit(n.sel, false, inSubq)
+		case *aggExpr:
+			visit(n.e, false, inSubq)
+		case *binExpr:
+			// a filter comparison with a scalar directly above a vector-vector operation one of
+			// whose operands carries a negative offset
+			if !n.isBool && isCmp(n.op) && (isScalar(n.l) != isScalar(n.r)) {
+				inner := n.l
+				if isScalar(n.l) {
+					inner = n.r
+				}
+				if ib, ok := inner.(*binExpr); ok && !isScalar(ib.l) && !isScalar(ib.r) {
+					ib.walk(func(x expr) {
+						if sl, ok := x.(*selector); ok && sl.offset < 0 {
+							negOffFilter = true
+						}
+					})
+				}
+			}
+			visit(n.l, false, inSubq)
+			visit(n.r, false, inSubq)
+		case *setExpr:
+			visit(n.l, false, inSubq)
+			visit(n.r, false, inSubq)
+		case *tsExpr:
+			visit(n.e, false, inSubq)
+		case *subqExpr:
+			hasSubq = true
+			visit(n.e, false, true)
+		case *kaggExpr:
+			if n.op != "quantile" {
+				vv := false
+				switch o := n.e.(type) {
+				case *binExpr:
+					vv = !isScalar(o.l) && !isScalar(o.r)
+				case *setExpr:
+					vv = true
+				}
+				_, plain := n.e.(*selector)
+				if !root || n.param < 1 || vv || !plain {
+					topkInner = true
+				}
+			}
+			visit(n.e, false, inSubq)
+		}
+	}
+	visit(q.e, true, false)
+	switch {
+	case hasSubq:
+		return "subquery-deviates"
+	case atInRange:
+		return "at-modifier-slides-with-step"
+	case topkInner:
+		return "topk-elements-lose-labels-inside"
+	case negOffFilter:
+		return "filter-above-binop-negative-offset"
+	}
+	return ""
+}
+
+func isCmp(op string) bool {
+	switch op {
+	case "==", "!=", "<", "<=", ">", ">=":
+		return true
+	}
+	return false
 }
